@@ -34,6 +34,9 @@ func init() {
 }
 
 func runC10(c *an.Ctx) {
+	// ---- R7: the location handed to the access check is not an object shared with the GeoIP cache that later code modifies
+	c.Floor("C10-R7", 1)
+	c.Borrow("C10-R7", runC05, func(o an.Obligation) bool { return o.Rule == "C05-R1" && strings.Contains(o.Key, "locFromReq") })
 	c10Access(c)
 	c.Inf("C10-R5", "pooled buffers", token.NoPos, "%d Pool.Get sites of byte buffers / string builders in the access code checked for Reset-before-use",
 		sharedPoolBufferReset(c, "C10-R5", "access.", "dnssvc/internal/ratelimitmw."))
